@@ -46,13 +46,23 @@ Theorem C02_proto_close_cb_iff_closed :
 Proof. exact close_cb_iff_closed. Qed.
 Print Assumptions C02_proto_close_cb_iff_closed.
 
-(* "close_cb runs in a later closing phase": whenever the closing queue is
-   empty, every closing handle has had its close callback, except an fs_poll
-   handle with a context still alive (whose stat completion / timer close will
-   queue it; that every context does die is the context-chain invariant of C17
-   and is not proved here).  Until /repo 834ed95 the model had a refuting
-   script for the unconditional statement (C02_close_cb_eventually_refuted);
-   with the repaired poll_cb that script delivers the callback: *)
+(* "close_cb runs in a later closing phase": when nothing is left on the closing
+   queue and no stat of an fs_poll handle is in flight (i.e. the loop has nothing
+   more to do for it), every handle on which uv_close was called has had its
+   close callback.  For fs_poll this rests on the context-chain invariant [TInv]
+   (every context of a stopped or closing handle has its stat in flight or its
+   timer on the closing queue).  Until /repo 834ed95 the faithful model refuted
+   this (C02_close_cb_eventually_refuted: start, stop, start, close); with the
+   repaired poll_cb that script delivers the callback (Example below). *)
+Theorem C02_close_cb_eventually :
+  forall os beh h,
+    let s := final os beh in
+    clq s = [] -> hvalid s h = true -> h_closing (hget s h) = true ->
+    has_stat (h_ctxs (hget s h)) = false ->
+    In (ECloseCb h) (ctrace os beh).
+Proof. exact close_cb_eventually. Qed.
+Print Assumptions C02_close_cb_eventually.
+
 Example C02_fs_poll_restart_now_closes :
   ctrace [OInit TFsPoll; OFpStart 0; OFpStop 0; OFpStart 0; OFpStat 0; OFpStat 0; OClose 0;
           OPhase; OPhase; OPhase] (fun _ => []) =
